@@ -96,42 +96,32 @@ Definition late_now (s : state) : bool :=
 Definition test_state (s : state) (n : N) : state :=
   set_st (set_counts (if late_now s then set_late s true else s)
                      (num_tests s + 1) n (N.max (highest_test s) n) (add_seen n (seen_tests s))) AfterTest.
-Definition test_events (s : state) (n : N) (ok : bool) (name : str) (dir : option (str * str)) : list event :=
-  (if late_now s then [EError KLate] else []) ++
+Definition test_events (s : state) (n : N) (ok : bool) (name : str) (dir : option (str * str)) (big : bool) : list event :=
+  (if late_now s then [EError KLate] else []) ++ (if big then [EError KBig] else []) ++
   (match cur_plan s with Some p => if p_num p <? n then [EError KExceeds] else [] | None => [] end) ++
   parse_test ok n name (option_map fst dir) (option_map snd dir).
-
-Lemma py_int_Ok ds n : py_int ds = Ok n -> n = digits_val ds /\ (length ds <= 4300)%nat.
-Proof.
-  unfold py_int, max_str_digits. destruct (Nat.leb (length ds) 4300) eqn:E; [|discriminate].
-  intro H. inversion H. split; [reflexivity|]. apply Nat.leb_le. exact E.
-Qed.
-Lemma py_int_Err ds c : py_int ds = PyErr c -> c = ValueError /\ (4300 < length ds)%nat.
-Proof.
-  unfold py_int, max_str_digits. destruct (Nat.leb (length ds) 4300) eqn:E; [discriminate|].
-  intro H. inversion H. split; [reflexivity|]. apply Nat.leb_gt. exact E.
-Qed.
 
 Lemma main_line_spec s l s' e : main_line s l = Ok (s', e) ->
   match line_class l with
   | None => s' = s /\ e = []
   | Some (LTest ok num name dir) =>
-      exists n, match num with
-                | None => n = last_test s + 1
-                | Some ds => n = digits_val ds /\ (length ds <= 4300)%nat
-                end /\ s' = test_state s n /\ e = test_events s n ok name dir
+      exists n, n = line_number (last_test s) num /\ s' = test_state s n /\
+                e = test_events s n ok name dir (num_big num)
   | Some (LPlan ds dir) =>
       match cur_plan s with
       | Some _ => s' = s /\ e = [EError KPlan2]
-      | None => exists p errs, s' = set_plan s (Some p) /\ e = errs ++ [EPlan p] /\
+      | None =>
+          if too_long ds then s' = s /\ e = [EError KBig]
+          else exists p errs, s' = set_plan s (Some p) /\ e = errs ++ [EPlan p] /\
                                p_num p = digits_val ds /\ p_late p = (0 <? num_tests s) /\
-                               forallb is_error errs = true /\ (length ds <= 4300)%nat /\
+                               forallb is_error errs = true /\
                                (forall k, In (EError k) errs -> k = KPlanSkip \/ k = KPlanDir)
       end
   | Some (LBail m) => s' = set_bailed s true /\ e = [EBail m]
   | Some (LVersion ds) =>
       if negb (lineno s =? 1) then s' = s /\ e = [EError KVerPos]
-      else s' = set_version s (digits_val ds) /\ (length ds <= 4300)%nat /\
+      else if too_long ds then s' = s /\ e = [EError KBig]
+      else s' = set_version s (digits_val ds) /\
            e = if digits_val ds <? 13 then [EError KVerLow] else [EVersion (digits_val ds)]
   | Some LUnknown => s' = s /\ e = [EUnknown (rstrip l) (lineno s)]
   end.
@@ -152,33 +142,37 @@ Proof.
     assert (Hlt : last_test (if late_now s then set_late s true else s) = last_test s) by (destruct (late_now s); reflexivity).
     assert (Hht : highest_test (if late_now s then set_late s true else s) = highest_test s) by (destruct (late_now s); reflexivity).
     assert (Hsn : seen_tests (if late_now s then set_late s true else s) = seen_tests s) by (destruct (late_now s); reflexivity).
-    destruct num as [ds|]; cbn [bind] in H.
-    + destruct (py_int ds) as [n|c] eqn:Hn; cbn [bind] in H; [|discriminate].
-      apply py_int_Ok in Hn. destruct Hn as [Hn Hl]. exists n. split; [auto|].
-      inversion H. unfold test_state, test_events. rewrite Hplan, Hnt, Hht, Hsn. auto.
-    + exists (last_test s + 1). split; [reflexivity|].
-      inversion H. unfold test_state, test_events. rewrite Hplan, Hnt, Hht, Hlt, Hsn. auto.
+    exists (line_number (last_test s) num). split; [reflexivity|].
+    assert (Hnum : (match num with
+              | None => Ok (last_test (if late_now s then set_late s true else s) + 1)
+              | Some ds => if too_long ds then Ok (last_test (if late_now s then set_late s true else s) + 1) else Ok (digits_val ds)
+              end) = Ok (line_number (last_test s) num)).
+    { unfold line_number. rewrite Hlt. destruct num as [ds|]; [destruct (too_long ds)|]; reflexivity. }
+    rewrite Hnum in H. cbn [bind] in H.
+    inversion H. unfold test_state, test_events, num_big. rewrite Hplan, Hnt, Hht, Hsn. auto.
   - (* plan *)
     destruct (cur_plan s) as [p|] eqn:Hp.
     { intro H. inversion H. auto. }
-    destruct (py_int ds) as [n|c] eqn:Hn; cbn [bind]; [|discriminate].
-    apply py_int_Ok in Hn. destruct Hn as [Hn Hl].
+    destruct (too_long ds).
+    { intro H. inversion H. auto. }
+    cbn [bind].
     destruct dir as [[d x]|]; cbn [option_map snd].
     + destruct (prefixb (s2l "SKIP") (upper d)).
       * intro H. inversion H.
-        exists (mkplan n (0 <? num_tests s) true (Some x)), (if 0 <? n then [EError KPlanSkip] else []).
-        cbn [p_num p_late]. repeat split; auto; [destruct (0 <? n); reflexivity|].
-        intros k Hk. destruct (0 <? n); simpl in Hk; [destruct Hk as [Hk|[]]; inversion Hk; auto|tauto].
+        exists (mkplan (digits_val ds) (0 <? num_tests s) true (Some x)), (if 0 <? digits_val ds then [EError KPlanSkip] else []).
+        cbn [p_num p_late]. repeat split; auto; [destruct (0 <? digits_val ds); reflexivity|].
+        intros k Hk. destruct (0 <? digits_val ds); simpl in Hk; [destruct Hk as [Hk|[]]; inversion Hk; auto|tauto].
       * intro H. inversion H.
-        exists (mkplan n (0 <? num_tests s) (n =? 0) (Some x)), [EError KPlanDir].
+        exists (mkplan (digits_val ds) (0 <? num_tests s) (digits_val ds =? 0) (Some x)), [EError KPlanDir].
         cbn [p_num p_late]. repeat split; auto.
         intros k [Hk|[]]. inversion Hk; auto.
-    + intro H. inversion H. exists (mkplan n (0 <? num_tests s) (n =? 0) None), []. cbn [p_num p_late app forallb]. repeat split; auto. intros k [].
+    + intro H. inversion H. exists (mkplan (digits_val ds) (0 <? num_tests s) (digits_val ds =? 0) None), []. cbn [p_num p_late app forallb]. repeat split; auto. intros k [].
   - intro H. inversion H. auto.
   - destruct (negb (lineno s =? 1)).
     { intro H. inversion H. auto. }
-    destruct (py_int ds) as [v|c] eqn:Hv; cbn [bind]; [|discriminate].
-    apply py_int_Ok in Hv. destruct Hv as [-> Hl].
+    destruct (too_long ds).
+    { intro H. inversion H. auto. }
+    cbn [bind].
     destruct (digits_val ds <? 13); intro H; inversion H; auto.
   - intro H. inversion H. auto.
 Qed.
@@ -315,16 +309,17 @@ Proof.
   - eexists [], _, _; split; reflexivity.
 Qed.
 
-Lemma test_events_shape s n ok name dir :
-  exists errs r ex, test_events s n ok name dir = errs ++ [ETest n (strip name) r ex] /\ quiet errs /\
+Lemma test_events_shape s n ok name dir big :
+  exists errs r ex, test_events s n ok name dir big = errs ++ [ETest n (strip name) r ex] /\ quiet errs /\
                     (late_now s = true -> In (EError KLate) errs).
 Proof.
   unfold test_events.
   destruct (parse_test_shape ok n name (option_map fst dir) (option_map snd dir)) as [e3 [r [ex [-> Q3]]]].
-  exists ((if late_now s then [EError KLate] else []) ++
+  exists ((if late_now s then [EError KLate] else []) ++ (if big then [EError KBig] else []) ++
           (match cur_plan s with Some p => if p_num p <? n then [EError KExceeds] else [] | None => [] end) ++ e3), r, ex.
   split; [repeat rewrite <- app_assoc; reflexivity|]. split.
   - apply quiet_app; [destruct (late_now s); reflexivity|].
+    apply quiet_app; [destruct big; reflexivity|].
     apply quiet_app; [|exact Q3].
     destruct (cur_plan s) as [p|]; [destruct (p_num p <? n)|]; reflexivity.
   - intros ->. left. reflexivity.
@@ -336,7 +331,7 @@ Proof.
   destruct (line_class l) as [[ok num name dir|ds dir|m|ds|]|].
   - (* test *)
     destruct H as [n [_ [-> ->]]].
-    destruct (test_events_shape s n ok name dir) as [errs [r [ex [-> [Q HL]]]]].
+    destruct (test_events_shape s n ok name dir (num_big num)) as [errs [r [ex [-> [Q HL]]]]].
     rewrite app_assoc.
     pose proof (Inv_quiet _ _ _ Q I) as [I1 I2 I3 I4 I5 I6 I7 I8].
     assert (Hpl : cur_plan (test_state s n) = cur_plan s).
@@ -361,7 +356,8 @@ Proof.
   - (* plan *)
     destruct (cur_plan s) as [p0|] eqn:Hp0.
     + destruct H as [-> ->]. apply Inv_quiet; [reflexivity|exact I].
-    + destruct H as [p [errs [-> [-> [Hn [Hl [Q _]]]]]]].
+    + destruct (too_long ds); [destruct H as [-> ->]; apply Inv_quiet; [reflexivity|exact I]|].
+      destruct H as [p [errs [-> [-> [Hn [Hl [Q _]]]]]]].
       rewrite app_assoc.
       pose proof (Inv_quiet _ _ _ Q I) as [I1 I2 I3 I4 I5 I6 I7 I8].
       rewrite Hp0 in I5.
@@ -391,7 +387,8 @@ Proof.
   - (* version *)
     destruct (negb (lineno s =? 1)).
     + destruct H as [-> ->]. apply Inv_quiet; [reflexivity|exact I].
-    + destruct H as [-> [_ ->]].
+    + destruct (too_long ds); [destruct H as [-> ->]; apply Inv_quiet; [reflexivity|exact I]|].
+      destruct H as [-> ->].
       apply (Inv_ctr _ s); [reflexivity|].
       destruct (digits_val ds <? 13); [apply Inv_quiet; [reflexivity|exact I]|].
       destruct I as [I1 I2 I3 I4 I5 I6 I7 I8]. split; simpl; auto.
@@ -681,28 +678,29 @@ Qed.
 Definition Lim : N := 10 ^ 4299.
 Lemma str_limit_Lim : str_limit = 10 * Lim.
 Proof. unfold str_limit, Lim. change 4300 with (N.succ 4299). apply N.pow_succ_r'. Qed.
-Lemma digits_small line ds : digits_ok line ds -> (length line <= 4299)%nat -> digits_val ds < Lim.
+Lemma too_long_false ds : too_long ds = false -> (length ds <= 100)%nat.
+Proof. unfold too_long, max_number_digits. intro H. apply Nat.ltb_ge in H. exact H. Qed.
+Lemma digits_small line ds : digits_ok line ds -> too_long ds = false -> digits_val ds < Lim.
 Proof.
-  intros [A B] H. pose proof (digits_val_bound ds A) as D.
+  intros [A B] H. pose proof (digits_val_bound ds A) as D. apply too_long_false in H.
   assert (10 ^ N.of_nat (length ds) <= Lim); [|lia].
   unfold Lim. apply N.pow_le_mono_r; lia.
 Qed.
 Lemma Lim_pos : 0 < Lim.
 Proof. unfold Lim. apply N.neq_0_lt_0. apply N.pow_nonzero. lia. Qed.
-Lemma short_lines_Lim lines : short_lines lines ->
-  (forall l, In l lines -> (length l <= 4299)%nat) /\ N.of_nat (length lines) < Lim.
+Lemma few_lines_Lim lines : few_lines lines -> N.of_nat (length lines) < Lim.
 Proof. intro H. exact H. Qed.
 Global Opaque Lim str_limit.
 
-(* a short line never raises, and keeps the numbers small *)
+(* no line raises (the numbers the parser converts have at most 100 digits), and the numbers stay small *)
 Lemma main_line_total s l k :
-  (length l <= 4299)%nat -> last_test s < Lim + k -> highest_test s < Lim + k ->
+  last_test s < Lim + k -> highest_test s < Lim + k ->
   exists s' e, main_line s l = Ok (s', e) /\ last_test s' < Lim + (k + 1) /\ highest_test s' < Lim + (k + 1).
 Proof.
-  intros Hl B1 B2. unfold main_line.
+  intros B1 B2. unfold main_line.
   destruct (negb (nonempty (rstrip l)) || prefixb [35] (rstrip l)).
   { eexists _, _. split; [reflexivity|]. lia. }
-  pose proof (classify_digits (rstrip l)) as D. pose proof (rstrip_length l) as R.
+  pose proof (classify_digits (rstrip l)) as D.
   destruct (classify (rstrip l)) as [ok num name dir|ds dir|m|ds|].
   - set (sp := match cur_plan s with
                | Some p => if p_late p && negb (found_late_test s) then (set_late s true, [EError KLate]) else (s, [])
@@ -711,15 +709,15 @@ Proof.
     { unfold sp. destruct (cur_plan s) as [p|]; [destruct (p_late p && negb (found_late_test s))|]; split; reflexivity. }
     destruct sp as [s0 ev1]. simpl in Hs. destruct Hs as [Hs1 Hs2].
     destruct num as [ds|].
-    + assert (Hd : digits_val ds < Lim) by (apply (digits_small (rstrip l)); [exact D|lia]).
-      unfold py_int, max_str_digits. destruct D as [_ D].
-      replace (Nat.leb (length ds) 4300) with true by (symmetry; apply Nat.leb_le; lia).
-      cbn [bind]. eexists _, _. split; [reflexivity|]. simpl. rewrite Hs2. lia.
+    + destruct (too_long ds) eqn:TL.
+      * cbn [bind]. eexists _, _. split; [reflexivity|]. simpl. rewrite Hs1, Hs2. lia.
+      * assert (Hd : digits_val ds < Lim) by (apply (digits_small (rstrip l)); assumption).
+        cbn [bind]. eexists _, _. split; [reflexivity|]. simpl. rewrite Hs2. lia.
     + cbn [bind]. eexists _, _. split; [reflexivity|]. simpl. rewrite Hs1, Hs2. lia.
   - destruct (cur_plan s) as [p|].
     { eexists _, _. split; [reflexivity|]. lia. }
-    unfold py_int, max_str_digits. destruct D as [_ D].
-    replace (Nat.leb (length ds) 4300) with true by (symmetry; apply Nat.leb_le; lia).
+    destruct (too_long ds).
+    { eexists _, _. split; [reflexivity|]. lia. }
     cbn [bind].
     destruct (match dir with
               | Some (d, _) => if prefixb (s2l "SKIP") (upper d)
@@ -730,36 +728,36 @@ Proof.
   - eexists _, _. split; [reflexivity|]. simpl. lia.
   - destruct (negb (lineno s =? 1)).
     { eexists _, _. split; [reflexivity|]. lia. }
-    unfold py_int, max_str_digits. destruct D as [_ D].
-    replace (Nat.leb (length ds) 4300) with true by (symmetry; apply Nat.leb_le; lia).
+    destruct (too_long ds).
+    { eexists _, _. split; [reflexivity|]. lia. }
     cbn [bind]. destruct (digits_val ds <? 13); eexists _, _; (split; [reflexivity|]); simpl; lia.
   - eexists _, _. split; [reflexivity|]. lia.
 Qed.
 
 Lemma parse_line_total s l k :
-  (length l <= 4299)%nat -> last_test s < Lim + k -> highest_test s < Lim + k ->
+  last_test s < Lim + k -> highest_test s < Lim + k ->
   exists s' e, parse_line s l = Ok (s', e) /\ last_test s' < Lim + (k + 1) /\ highest_test s' < Lim + (k + 1).
 Proof.
-  intros Hl B1 B2. unfold parse_line.
+  intros B1 B2. unfold parse_line.
   pose proof (pre_line_facts (set_lineno s (lineno s + 1)) l) as F.
   destruct (pre_line (set_lineno s (lineno s + 1)) l) as [s1|s1 pre].
   - destruct F as [F _]. unfold ctr in F. inversion F as [[F1 F2 F3 F4 F5 F6 F7]].
     exists s1, []. split; [reflexivity|]. rewrite F5, F6. simpl. lia.
   - destruct F as [F _]. unfold ctr in F. inversion F as [[F1 F2 F3 F4 F5 F6 F7]].
-    destruct (main_line_total s1 l k Hl) as [s' [e [Hm [C1 C2]]]].
+    destruct (main_line_total s1 l k) as [s' [e [Hm [C1 C2]]]].
     + rewrite F5. exact B1.
     + rewrite F6. exact B2.
     + rewrite Hm. cbn [bind]. eexists _, _. split; [reflexivity|]. auto.
 Qed.
 
 Lemma run_lines_total lines : forall s k,
-  (forall l, In l lines -> (length l <= 4299)%nat) -> last_test s < Lim + k -> highest_test s < Lim + k ->
+  last_test s < Lim + k -> highest_test s < Lim + k ->
   exists s' e, run_lines s lines = Ok (s', e) /\ highest_test s' < Lim + (k + N.of_nat (length lines)).
 Proof.
-  induction lines as [|l lines IH]; intros s k Hl B1 B2.
+  induction lines as [|l lines IH]; intros s k B1 B2.
   - exists s, []. split; [reflexivity|]. simpl. lia.
-  - destruct (parse_line_total s l k (Hl l (or_introl eq_refl)) B1 B2) as [s1 [e1 [H1 [C1 C2]]]].
-    destruct (IH s1 (k + 1) (fun x Hx => Hl x (or_intror Hx)) C1 C2) as [s2 [e2 [H2 C3]]].
+  - destruct (parse_line_total s l k B1 B2) as [s1 [e1 [H1 [C1 C2]]]].
+    destruct (IH s1 (k + 1) C1 C2) as [s2 [e2 [H2 C3]]].
     exists s2, (e1 ++ e2). simpl run_lines. rewrite H1. cbn [bind]. rewrite H2. cbn [bind].
     split; [reflexivity|]. simpl length. lia.
 Qed.
@@ -772,39 +770,23 @@ Proof.
     destruct (numbering_bad s); eauto.
 Qed.
 
-Theorem no_raise_partial lines : short_lines lines -> exists evs, parse lines = Ok evs.
+(* "No input makes the parser raise" (parser with the fix C18-int-max-str-digits): every stream of
+   fewer than 10^4299 lines, whatever the lines are *)
+Theorem no_raise lines : few_lines lines -> exists evs, parse lines = Ok evs.
 Proof.
-  intro H. apply short_lines_Lim in H. destruct H as [Hl Hn].
+  intro H. apply few_lines_Lim in H.
   pose proof Lim_pos as Lim0.
-  destruct (run_lines_total lines init 0 Hl) as [s [e [Hr Hh]]]; [simpl; lia|simpl; lia|].
+  destruct (run_lines_total lines init 0) as [s [e [Hr Hh]]]; [simpl; lia|simpl; lia|].
   destruct (eof_total s) as [e2 He]; [rewrite str_limit_Lim; unfold str in *; lia|].
   exists (e ++ e2). unfold parse. rewrite Hr. cbn [bind]. rewrite He. reflexivity.
 Qed.
 
-(* the only exception class that can escape is ValueError *)
+(* no line ever raises; the only exception that can escape at all is the ValueError of str() at the
+   end of a stream of 10^4299 lines or more *)
 Lemma main_line_exc s l c : main_line s l = PyErr c -> c = ValueError.
 Proof.
-  unfold main_line.
-  destruct (negb (nonempty (rstrip l)) || prefixb [35] (rstrip l)); [discriminate|].
-  destruct (classify (rstrip l)) as [ok num name dir|ds dir|m|ds|]; try discriminate.
-  - destruct (match cur_plan s with
-              | Some p => if p_late p && negb (found_late_test s) then (set_late s true, [EError KLate]) else (s, [])
-              | None => (s, []) end) as [s0 ev1].
-    destruct num as [ds|]; cbn [bind]; [|discriminate].
-    destruct (py_int ds) as [n|c'] eqn:E; cbn [bind]; [discriminate|].
-    apply py_int_Err in E. intro H. inversion H. subst. tauto.
-  - destruct (cur_plan s); [discriminate|].
-    destruct (py_int ds) as [n|c'] eqn:E; cbn [bind].
-    + destruct (match dir with
-              | Some (d, _) => if prefixb (s2l "SKIP") (upper d)
-                               then (if 0 <? n then [EError KPlanSkip] else [], true)
-                               else ([EError KPlanDir], n =? 0)
-              | None => ([], n =? 0) end). discriminate.
-    + apply py_int_Err in E. intro H. inversion H. subst. tauto.
-  - destruct (negb (lineno s =? 1)); [discriminate|].
-    destruct (py_int ds) as [n|c'] eqn:E; cbn [bind].
-    + destruct (n <? 13); discriminate.
-    + apply py_int_Err in E. intro H. inversion H. subst. tauto.
+  intro H. destruct (main_line_total s l (last_test s + highest_test s + 1)) as [s' [e [E _]]]; try lia.
+  rewrite E in H. discriminate.
 Qed.
 
 Lemma eof_exc s c : eof s = PyErr c -> c = ValueError.
@@ -837,33 +819,9 @@ Proof.
   - intro H. inversion H. subst. eapply R. exact H1.
 Qed.
 
-Theorem no_raise_refuted :
-  exists lines, parse lines = PyErr ValueError /\ length lines = 1%nat.
-Proof. exists [s2l "ok " ++ repeat 57 4301]. split; [vm_compute; reflexivity|reflexivity]. Qed.
-
-(* str(int) in the end-of-stream message: whenever the highest test number has reached 10^4300
-   (e.g. 4300 nines followed by an unnumbered test, see run_verdict_refuted for a stream that gets
-   there) and the numbering message is due, the parser raises.  Stated for every such state: the
-   independent checker (coqchk, thorough tier) needs about 13 minutes per evaluated 4300-digit
-   stream, so only one such stream is evaluated in this development. *)
-Theorem eof_str_raises s :
-  bailed_out s = false -> cur_plan s = None -> str_limit <= highest_test s -> num_tests s < str_limit ->
-  eof s = PyErr ValueError.
-Proof.
-  intros Hb Hp Hh Hn. unfold eof. rewrite Hb, Hp.
-  rewrite (numbering_bad_high s) by lia.
-  unfold py_str_ok. replace (highest_test s <? str_limit) with false; [reflexivity|].
-  symmetry. apply N.ltb_ge. exact Hh.
-Qed.
-
-(* the guard of no_raise_partial is satisfiable by a non-trivial stream *)
-Example short_lines_example :
-  short_lines [s2l "TAP version 13"; s2l "1..2"; s2l "ok 1 - a"; s2l "not ok 2 # TODO later"].
-Proof.
-  split.
-  - intros l [<-|[<-|[<-|[<-|[]]]]]; vm_compute; lia.
-  - vm_compute. reflexivity.
-Qed.
+(* the guard is met by any ordinary stream, e.g. one with a 4301-digit test number *)
+Example few_lines_example : few_lines [s2l "ok " ++ repeat 57 4301; s2l "1..1"].
+Proof. vm_compute. reflexivity. Qed.
 
 (* ------------------------------------------------------------------ *)
 (* The verdict of the whole test                                       *)
@@ -1049,32 +1007,36 @@ Theorem test_line_subtest s l s' e :
   main_line s l = Ok (s', e) ->
   match line_class l with
   | Some (LTest ok num name dir) =>
-      let n := match num with Some ds => digits_val ds | None => last_test s + 1 end in
+      let n := line_number (last_test s) num in
       tests_of e = [(n, strip name, spec_status ok (dir_of dir), spec_explanation dir)] /\
-      last_test s' = n /\ num_tests s' = num_tests s + 1 /\ st s' = AfterTest
+      last_test s' = n /\ num_tests s' = num_tests s + 1 /\ st s' = AfterTest /\
+      (num_big num = true -> In (EError KBig) e)
   | _ => tests_of e = [] /\ last_test s' = last_test s /\ num_tests s' = num_tests s
   end.
 Proof.
   intro H. apply main_line_spec in H. pose proof (line_class_dir l) as V.
   destruct (line_class l) as [[ok num name dir|ds dir|m|ds|]|].
-  - destruct H as [n [Hn [-> ->]]].
-    assert (En : n = match num with Some ds => digits_val ds | None => last_test s + 1 end)
-      by (destruct num; tauto).
-    rewrite <- En. unfold test_events. rewrite (parse_test_spec _ _ _ _ V).
+  - destruct H as [n [-> [-> ->]]].
+    unfold test_events. rewrite (parse_test_spec _ _ _ _ V).
     rewrite !tests_of_app.
     replace (tests_of (if late_now s then [EError KLate] else [])) with (@nil (N * str * tres * option str))
       by (destruct (late_now s); reflexivity).
-    replace (tests_of (match cur_plan s with Some p => if p_num p <? n then [EError KExceeds] else [] | None => [] end))
+    replace (tests_of (if num_big num then [EError KBig] else [])) with (@nil (N * str * tres * option str))
+      by (destruct (num_big num); reflexivity).
+    replace (tests_of (match cur_plan s with Some p => if p_num p <? line_number (last_test s) num then [EError KExceeds] else [] | None => [] end))
       with (@nil (N * str * tres * option str))
-      by (destruct (cur_plan s) as [p|]; [destruct (p_num p <? n)|]; reflexivity).
-    simpl. unfold test_state. destruct (late_now s); simpl; auto.
+      by (destruct (cur_plan s) as [p|]; [destruct (p_num p <? line_number (last_test s) num)|]; reflexivity).
+    simpl. unfold test_state. repeat split; try (destruct (late_now s); reflexivity).
+    intros ->. apply in_or_app. right. left. reflexivity.
   - destruct (cur_plan s) as [p0|].
     + destruct H as [-> ->]. auto.
-    + destruct H as [p [errs [-> [-> [_ [_ [Q _]]]]]]]. rewrite tests_of_app, (quiet_tests _ Q). simpl. auto.
+    + destruct (too_long ds); [destruct H as [-> ->]; auto|].
+      destruct H as [p [errs [-> [-> [_ [_ [Q _]]]]]]]. rewrite tests_of_app, (quiet_tests _ Q). simpl. auto.
   - destruct H as [-> ->]. auto.
   - destruct (negb (lineno s =? 1)).
     + destruct H as [-> ->]. auto.
-    + destruct H as [-> [_ ->]]. destruct (digits_val ds <? 13); auto.
+    + destruct (too_long ds); [destruct H as [-> ->]; auto|].
+      destruct H as [-> ->]. destruct (digits_val ds <? 13); auto.
   - destruct H as [-> ->]. auto.
   - destruct H as [-> ->]. auto.
 Qed.
@@ -1140,12 +1102,14 @@ Proof.
     destruct (line_class l) as [[ok num name dir|ds dir|m|ds|]|].
     + destruct H as [n [_ [_ ->]]]. unfold test_events. rewrite (parse_test_spec _ _ _ _ V).
       apply Forall_app. split; [destruct (late_now s); repeat constructor; discriminate|].
+      apply Forall_app. split; [destruct (num_big num); repeat constructor; discriminate|].
       apply Forall_app. split; [destruct (cur_plan s) as [p|]; [destruct (p_num p <? n)|]; repeat constructor; discriminate|].
       constructor; [|constructor]. simpl. unfold tap_result.
       destruct (dir_of dir) as [[|]|], ok; simpl; tauto.
     + destruct (cur_plan s).
       * destruct H as [_ ->]. repeat constructor. discriminate.
-      * destruct H as [p [errs [_ [-> [_ [_ [Q [_ K]]]]]]]]. clear V.
+      * destruct (too_long ds); [destruct H as [_ ->]; repeat constructor; discriminate|].
+        destruct H as [p [errs [_ [-> [_ [_ [Q K]]]]]]]. clear V.
         apply Forall_app. split; [|repeat constructor].
         apply Forall_forall. intros x Hx.
         pose proof (proj1 (forallb_forall _ _) Q x Hx) as E. destruct x; try discriminate.
@@ -1153,7 +1117,8 @@ Proof.
     + destruct H as [_ ->]. repeat constructor.
     + destruct (negb (lineno s =? 1)).
       * destruct H as [_ ->]. repeat constructor. discriminate.
-      * destruct H as [_ [_ ->]]. destruct (digits_val ds <? 13); repeat constructor. discriminate.
+      * destruct (too_long ds); [destruct H as [_ ->]; repeat constructor; discriminate|].
+        destruct H as [_ ->]. destruct (digits_val ds <? 13); repeat constructor. discriminate.
     + destruct H as [_ ->]. repeat constructor.
     + destruct H as [_ ->]. constructor.
   - intros k Hk. simpl in Hk. simpl. intuition congruence.
@@ -1171,11 +1136,12 @@ Proof.
   - destruct H as [n [_ [-> _]]]. unfold test_state. destruct (late_now s); simpl; auto.
   - destruct (cur_plan s) as [p0|] eqn:E.
     + destruct H as [-> _]. auto.
-    + destruct H as [p [errs [-> _]]]. simpl. repeat split; auto. congruence.
+    + destruct (too_long ds); [destruct H as [-> _]; repeat split; auto|].
+      destruct H as [p [errs [-> _]]]. simpl. repeat split; auto. congruence.
   - destruct H as [-> _]. simpl. auto.
   - destruct (negb (lineno s =? 1)).
     + destruct H as [-> _]. auto.
-    + destruct H as [-> _]. simpl. auto.
+    + destruct (too_long ds); destruct H as [-> _]; simpl; auto.
   - destruct H as [-> _]. auto.
   - destruct H as [-> _]. auto.
 Qed.
@@ -1264,62 +1230,6 @@ Lemma parse_run lines evs : parse lines = Ok evs ->
   exists s e e2, run_lines init lines = Ok (s, e) /\ evs = e ++ e2.
 Proof.
   intro H. apply parse_split in H. destruct H as [s [e [e2 [R [_ [-> _]]]]]]. eauto.
-Qed.
-
-(* Bail out! produces a bail-out event *)
-Theorem bail_out_reported l1 x l2 m evs :
-  no_yaml (l1 ++ x :: l2) -> line_class x = Some (LBail m) ->
-  parse (l1 ++ x :: l2) = Ok evs -> In (EBail m) evs.
-Proof.
-  intros Hn Hc H. apply parse_run in H. destruct H as [s [e [e2 [R ->]]]].
-  apply no_yaml_focus in R; [|exact Hn|discriminate].
-  destruct R as [sa [ea [s1 [sb [eb [ec [_ [_ [_ [_ [Hm [_ [_ ->]]]]]]]]]]]]].
-  apply main_line_spec in Hm. rewrite Hc in Hm. destruct Hm as [_ ->].
-  apply in_or_app. left. apply in_or_app. right. left. reflexivity.
-Qed.
-
-(* a second plan produces an error event *)
-Theorem second_plan_reported l1 x l2 y l3 d1 r1 d2 r2 evs :
-  no_yaml (l1 ++ x :: l2 ++ y :: l3) ->
-  line_class x = Some (LPlan d1 r1) -> line_class y = Some (LPlan d2 r2) ->
-  parse (l1 ++ x :: l2 ++ y :: l3) = Ok evs -> In (EError KPlan2) evs.
-Proof.
-  intros Hn Hx Hy H. apply parse_run in H. destruct H as [s [e [e2 [R ->]]]].
-  apply no_yaml_focus in R; [|exact Hn|discriminate].
-  destruct R as [sa [ea [s1 [sb [eb [ec [_ [_ [_ [_ [Hm [Hsb [R2 ->]]]]]]]]]]]]].
-  assert (Hpb : cur_plan sb <> None).
-  { apply main_line_spec in Hm. rewrite Hx in Hm. destruct (cur_plan s1) eqn:E.
-    - destruct Hm as [-> _]. congruence.
-    - destruct Hm as [p [errs [-> _]]]. simpl. discriminate. }
-  assert (Hn2 : no_yaml (l2 ++ y :: l3)) by (intros z Hz; apply Hn; apply in_or_app; right; right; exact Hz).
-  apply no_yaml_focus in R2; [|exact Hn2|exact Hsb].
-  destruct R2 as [sa' [ea' [s1' [sb' [eb' [ec' [_ [_ [_ [P1 [Hm' [_ [_ ->]]]]]]]]]]]]].
-  apply main_line_spec in Hm'. rewrite Hy in Hm'. rewrite (P1 Hpb) in Hm'.
-  destruct (cur_plan sb); [|congruence]. destruct Hm' as [_ ->].
-  apply in_or_app. left. apply in_or_app. right. apply in_or_app. right.
-  apply in_or_app. right. apply in_or_app. left. left. reflexivity.
-Qed.
-
-(* a version line anywhere but on the first line produces an error event; so does a version below 13 *)
-Theorem misplaced_version_reported l1 x l2 ds evs :
-  no_yaml (l1 ++ x :: l2) -> line_class x = Some (LVersion ds) ->
-  parse (l1 ++ x :: l2) = Ok evs ->
-  (l1 <> [] -> In (EError KVerPos) evs) /\
-  (l1 = [] -> digits_val ds < 13 -> In (EError KVerLow) evs) /\
-  (l1 = [] -> 13 <= digits_val ds -> In (EVersion (digits_val ds)) evs).
-Proof.
-  intros Hn Hc H. apply parse_run in H. destruct H as [s [e [e2 [R ->]]]].
-  apply no_yaml_focus in R; [|exact Hn|discriminate].
-  destruct R as [sa [ea [s1 [sb [eb [ec [_ [_ [L [_ [Hm [_ [_ ->]]]]]]]]]]]]].
-  apply main_line_spec in Hm. rewrite Hc in Hm. simpl in L.
-  assert (IN : forall x, In x eb -> In x ((ea ++ eb ++ ec) ++ e2)).
-  { intros z Hz. apply in_or_app. left. apply in_or_app. right. apply in_or_app. left. exact Hz. }
-  destruct (N.eqb_spec (lineno s1) 1) as [E|E]; simpl in Hm.
-  - assert (l1 = []) by (destruct l1; [reflexivity|simpl in L; lia]).
-    destruct Hm as [_ [_ ->]]. split; [congruence|].
-    destruct (N.ltb_spec (digits_val ds) 13); split; intros; try lia; apply IN; left; reflexivity.
-  - destruct Hm as [_ ->]. assert (l1 <> []) by (intros ->; simpl in L; lia).
-    split; [intros _; apply IN; left; reflexivity|]. split; congruence.
 Qed.
 
 (* ------------------------------------------------------------------ *)
@@ -1442,7 +1352,7 @@ Proof.
   intros I H. apply main_line_spec in H.
   destruct (line_class l) as [[ok num name dir|ds dir|m|ds|]|].
   - destruct H as [n [_ [-> ->]]].
-    destruct (test_events_shape s n ok name dir) as [errs [r [ex [-> [Q _]]]]].
+    destruct (test_events_shape s n ok name dir (num_big num)) as [errs [r [ex [-> [Q _]]]]].
     rewrite app_assoc. pose proof (InvS_quiet _ _ _ Q I) as [A B].
     assert (E : seen_tests (test_state s n) = add_seen n (seen_tests s))
       by (unfold test_state; destruct (late_now s); reflexivity).
@@ -1455,12 +1365,14 @@ Proof.
       * simpl. rewrite B. tauto.
   - destruct (cur_plan s).
     + destruct H as [-> ->]. apply InvS_quiet; [reflexivity|exact I].
-    + destruct H as [p [errs [-> [-> [_ [_ [Q _]]]]]]]. rewrite app_assoc.
+    + destruct (too_long ds); [destruct H as [-> ->]; apply InvS_quiet; [reflexivity|exact I]|].
+      destruct H as [p [errs [-> [-> [_ [_ [Q _]]]]]]]. rewrite app_assoc.
       apply (InvS_notest _ s); [reflexivity|reflexivity|]. apply InvS_quiet; assumption.
   - destruct H as [-> ->]. apply (InvS_notest _ s); [reflexivity|reflexivity|exact I].
   - destruct (negb (lineno s =? 1)).
     + destruct H as [-> ->]. apply InvS_quiet; [reflexivity|exact I].
-    + destruct H as [-> [_ ->]]. destruct (digits_val ds <? 13); apply (InvS_notest _ s); try reflexivity; exact I.
+    + destruct (too_long ds); [destruct H as [-> ->]; apply InvS_quiet; [reflexivity|exact I]|].
+      destruct H as [-> ->]. destruct (digits_val ds <? 13); apply (InvS_notest _ s); try reflexivity; exact I.
   - destruct H as [-> ->]. apply (InvS_notest _ s); [reflexivity|reflexivity|exact I].
   - destruct H as [-> ->]. rewrite app_nil_r. exact I.
 Qed.
@@ -1696,12 +1608,12 @@ Proof.
   simpl. rewrite andb_false_r. reflexivity.
 Qed.
 
-Theorem run_verdict_partial lines rc xf :
-  short_lines lines -> exists r, run_verdict rc xf lines = Ok r.
+Theorem run_verdict_total lines rc xf :
+  few_lines lines -> exists r, run_verdict rc xf lines = Ok r.
 Proof.
-  intro H. apply short_lines_Lim in H. destruct H as [Hl Hn].
+  intro H. apply few_lines_Lim in H.
   pose proof Lim_pos as Lim0.
-  destruct (run_lines_total lines init 0 Hl) as [s [e [Hr Hh]]]; [simpl; lia|simpl; lia|].
+  destruct (run_lines_total lines init 0) as [s [e [Hr Hh]]]; [simpl; lia|simpl; lia|].
   assert (Hs : highest_test s < str_limit) by (rewrite str_limit_Lim; unfold str in *; lia).
   destruct (eof_total s Hs) as [e2 He].
   pose proof (run_lines_inv lines [] init s e Inv_init Hr) as I. simpl in I.
@@ -1709,19 +1621,4 @@ Proof.
   unfold run_verdict, parse. rewrite Hr. cbn [bind]. rewrite He. cbn [bind].
   rewrite verdict_raises_small; [eauto|].
   rewrite maxnum_app, (quiet_maxnum _ Q), N.max_0_r, <- (inv_high _ _ I). exact Hs.
-Qed.
-
-(* the parser survives (plan mismatch is reported first), TestRunTAP.parse does not *)
-Theorem run_verdict_refuted :
-  exists lines evs, parse lines = Ok evs /\ run_verdict 0 false lines = PyErr ValueError /\
-                    str_limit <= maxnum evs.
-Proof.
-  exists [s2l "1..5"; s2l "ok " ++ repeat 57 4300; s2l "ok"].
-  assert (H : match parse [s2l "1..5"; s2l "ok " ++ repeat 57 4300; s2l "ok"] with
-              | Ok evs => verdict_raises evs = true /\ (str_limit <=? maxnum evs) = true
-              | PyErr _ => False end) by (vm_compute; auto).
-  unfold run_verdict.
-  destruct (parse [s2l "1..5"; s2l "ok " ++ repeat 57 4300; s2l "ok"]) as [evs|c]; [|contradiction].
-  destruct H as [H1 H2]. exists evs. split; [reflexivity|]. cbn [bind]. rewrite H1.
-  split; [reflexivity|]. apply N.leb_le. exact H2.
 Qed.
